@@ -164,3 +164,13 @@ Definition eval_p (k : case16p) : str :=
 Definition report_p (l : list case16p) : list (Z * Z) :=
   filter (fun p => negb (Z.eqb (snd p) 0))
          (map (fun k => (p_id k, if str_eqb (eval_p k) (p_r k) then 0 else 1)) l).
+
+(* ---------- edges of the spelled import graphs ---------- *)
+(* the generator's resolution of one import statement (importing file, form,
+   text -> raw file name) is re-derived with the repaired model *)
+Record case16e := { e_id : Z; e_gomods : list str; e_dot : bool; e_name : str; e_importer : str; e_expect : str }.
+Definition report_e (l : list case16e) : list (Z * Z) :=
+  filter (fun p => negb (Z.eqb (snd p) 0))
+         (map (fun k => (e_id k,
+                         if outcome_eqb (snd (resolve quirks_off [47] (gomod_of (e_gomods k)) (e_dot k) (e_name k) (dir (e_importer k))))
+                                        (Read (e_expect k)) then 0 else 1)) l).
